@@ -473,7 +473,9 @@ def splice_generator_helpers(fn):
     counter = [0]
 
     def simple(a):
-        return isinstance(a, (_ast.Name, _ast.Constant)) or (isinstance(a, _ast.Attribute) and simple(a.value))
+        return isinstance(a, (_ast.Name, _ast.Constant)) or (isinstance(a, _ast.Attribute) and simple(a.value)) or (isinstance(a, _ast.Tuple) and all(simple(e) for e in a.elts))
+
+    caller_names = {x.id for x in _ast.walk(fn.node) if isinstance(x, _ast.Name)} | {a.arg for a in fn.node.args.args}
 
     def unguard(stmts):
         """`if c: A; return` followed by B  ==>  `if c: A else: B` (top level only); None if another return remains"""
@@ -517,7 +519,7 @@ def splice_generator_helpers(fn):
                 if ok and set(binding) == set(allp):
                     counter[0] += 1
                     suffix = f"__h{counter[0]}"
-                    stored = {x.id for x in _ast.walk(h.node) if isinstance(x, _ast.Name) and isinstance(x.ctx, _ast.Store)} - set(allp)
+                    stored = ({x.id for x in _ast.walk(h.node) if isinstance(x, _ast.Name) and isinstance(x.ctx, _ast.Store)} - set(allp)) & caller_names  # only colliding names are renamed apart
 
                     class R(_ast.NodeTransformer):
                         def visit_Name(self, node):
